@@ -548,7 +548,7 @@ def run_cases(ctx, cases, name, rows_fn=None, chunk=40):
             docs = []
             for di, d in enumerate(c.docs):
                 o = d.get("obs")
-                if o is None or "raw" in d or d.get("t", "Root") != "Root" or d.get("wire", c.wire) != "json":
+                if o is None or "raw" in d or d.get("prior") or d.get("t", "Root") != "Root" or d.get("wire", c.wire) != "json":
                     continue
                 v = VERD.get(o["v"], 2)
                 val = "None"
